@@ -466,7 +466,10 @@ def walk(seed, index, props, steps=12, n=None, verbose=False):
             kw = op.effect[1]; a1 = after.get(id(ret))
             if a1 is not None:
                 if kw.get('parent') is not None and a1[0] is not kw['parent']: found.append(('C16 constructor: new task does not report the given parent', ''))
-                if 'children' in kw and [id(x) for x in a1[1]] != [id(x) for x in dedupe(tolist(kw['children']))]: found.append(('C16 constructor: children of the new task are not the given tasks', f'{[x.id for x in a1[1]]}'))
+                if 'children' in kw:          # with a task named twice "the given order" is met by either occurrence (as for an assignment to .children)
+                    Lc = tolist(kw['children']); got = [id(x) for x in a1[1]]
+                    if got != [id(x) for x in dedupe(Lc)] and got != [id(x) for x in reversed(dedupe(list(reversed(Lc))))]:
+                        found.append(('C16 constructor: children of the new task are not the given tasks', f'{[x.id for x in a1[1]]}'))
                 for key, k in (('predecessors', 2), ('successors', 3)):
                     want = dedupe(tolist(kw.get(key)))
                     if sorted(map(id, a1[k])) != sorted(map(id, want)): found.append((f'C16 constructor: {key} of the new task are not the given tasks', f'{[x.id for x in a1[k]]} vs {[x.id for x in want]}'))
